@@ -512,7 +512,7 @@ func lenClass2(n int) string {
 
 func runC18(c *ev.Ctx) {
 	r := c.Rand("c18")
-	rounds := c.Sz(64, 600)
+	rounds := c.Sz(160, 600)
 	for round := 0; round < rounds; round++ {
 		if !c.Mine(round) {
 			continue
@@ -645,7 +645,7 @@ func c18Concurrent(c *ev.Ctx) {
 // buffers a connection recycles must never be shared by two replies in flight.
 func c18Pipelined(c *ev.Ctx) {
 	r := c.Rand("c18pipe")
-	rounds := c.Sz(40, 3000)
+	rounds := c.Sz(120, 3000)
 	for round := 0; round < rounds; round++ {
 		rr := r.Fork(uint64(round))
 		if !c.Mine(round) {
@@ -771,7 +771,7 @@ func c18Pipelined(c *ev.Ctx) {
 // with Rlerror carrying an errno that is a function of ITS fid. The object an
 // error reply is decoded into must not be shared with the next error reply.
 func c18ClientErrors(c *ev.Ctx) {
-	rounds := c.Sz(8, 200)
+	rounds := c.Sz(24, 200)
 	defer runtime.GOMAXPROCS(runtime.GOMAXPROCS(8))
 	for round := 0; round < rounds; round++ {
 		if !c.Mine(round) {
